@@ -1,6 +1,7 @@
 package syncer
 
 import (
+	"github.com/mgtv-tech/redis-GunYu/config"
 	"context"
 	"fmt"
 	"strings"
@@ -85,6 +86,8 @@ func c14cIsData(argv [][]byte) bool {
 }
 
 // c14cStream: unit i writes key[Lane[i]] with a unique value.
+var c14cFoo bool // set by c14cExec for the execution under way
+
 func c14cStream(lanes []int) []sItem {
 	var items []sItem
 	var off int64
@@ -98,7 +101,11 @@ func c14cStream(lanes []int) []sItem {
 		items = append(items, it)
 	}
 	for i, l := range lanes {
-		add("SET", c14cKeys[l], fmt.Sprintf("v%d", i))
+		if c14cFoo {
+			add("FOO.SET", c14cKeys[l], fmt.Sprintf("v%d", i))
+		} else {
+			add("SET", c14cKeys[l], fmt.Sprintf("v%d", i))
+		}
 	}
 	return items
 }
@@ -126,6 +133,10 @@ type c14cScenario struct {
 	// flip. With a topology script a run may end with a REPORTED error (the tool restarts); that is
 	// not a violation (C19), a silent stop still is.
 	Topo []string `json:"topo,omitempty"`
+	// Foo: the units are FOO.SET commands (not in the static key table: keys through COMMAND GETKEYS)
+	// and the output has a slot white list that contains only the slot of lane 0's key. A command
+	// the key table does not know is not slot-filtered, so lane 1's units are replayed as well.
+	Foo bool `json:"foo,omitempty"`
 }
 
 func c14cExec(t *testing.T, scn c14cScenario, ch *mc.Chooser) (rec c14Rec, machinery string) {
@@ -133,6 +144,14 @@ func c14cExec(t *testing.T, scn c14cScenario, ch *mc.Chooser) (rec c14Rec, machi
 		biEnvReset()
 		cl := clusterd.New(clusterAddrs, clusterd.EvenLayout(3))
 		rc := clusterCfg()
+		c14cFoo = scn.Foo
+		if scn.Foo {
+			sl := ref.HashSlotS(c14cKeys[0])
+			biBootCfgHookAll = func(c *RedisOutputConfig) {
+				c.Filter = config.FilterConfig{SlotFilter: &config.FilterSlotConfig{KeySlotWhitelist: config.DoubleSliceUint16{{uint16(sl)}}}}
+			}
+			defer func() { biBootCfgHookAll = nil }()
+		}
 		items := c14cStream(scn.Lanes)
 		rec.Items = items
 		ctl := &clusterCrashCtl{cl: cl, ch: ch, left: scn.MaxCrashes, marks: &rec.Marks}
